@@ -387,7 +387,11 @@ class Universe:
         if fl & FLAG_NOTIFY:
             ev.notify = True
         if 'success_ch' in spec:
-            ev.success_channels = (self._chan_obj(spec['success_ch']),)
+            ev.success_channels = tuple(self._chan_obj(c) for c in spec['success_ch']) if isinstance(spec['success_ch'], list) \
+                else (self._chan_obj(spec['success_ch']),)
+        if 'complete_ch' in spec:
+            ev.complete_channels = tuple(self._chan_obj(c) for c in spec['complete_ch']) if isinstance(spec['complete_ch'], list) \
+                else (self._chan_obj(spec['complete_ch']),)
         return ev
 
     def _chan_obj(self, ch):
